@@ -146,13 +146,9 @@ def r2_no_lost_verdict(ctx, rep, R='C02.R2'):
               key='endrun:verdict', func=fi.qualname, where=ctx.where(fi, g.node(hs[0]).ast))
 
 
-def r3_channels(ctx, rep, R='C02.R3'):
-    rep.rule(R, 'every bad-outcome channel reaches an accumulator the verdict reads: test '
-             'failures / unexpected successes -> failures, test errors -> errors (function '
-             'run_tests, every iteration); layer setUp/tearDown exceptions -> errors '
-             '(handle_layer_failure, not for NotImplementedError); import failures -> '
-             'StartUpFailure -> layer None -> Runner.import_errors; a missing layer in a child -> '
-             'Runner.errors')
+def result_transfers(ctx, rep, R):
+    """what a layer run recorded in its TestResult reaches the run-wide accumulators: on every path
+    of every --repeat iteration, and completely (shared by C02.R3, C04.R6, C12.R1)"""
     m = ctx.model
     fi = m.func('runner.run_tests')
     g = ctx.cfg(fi)
@@ -181,7 +177,37 @@ def r3_channels(ctx, rep, R='C02.R3'):
         rep.check(ok, R, 'run_tests: %s.extend(%s.%s) on every path of an iteration' % (acc, res, attr),
                   'the %s of a layer run do not reach the %s accumulator on every path' % (attr, acc),
                   key='channel:%s<-%s' % (acc, attr), func=fi.qualname, where=ctx.where(fi, fi.node))
+        # ... and the transfer is complete: every entry of the result list is handed over (a
+        # comprehension / generator may re-shape the entries but must not filter them)
+        for nid in ext:
+            for c in node_calls(g, nid):
+                if not (isinstance(c.func, ast.Attribute) and c.func.attr in ('extend', 'append') and
+                        is_name(c.func.value, acc) and c.args):
+                    continue
+                a0 = c.args[0]
+                filt = [norm(i) for x in ast.walk(a0) if isinstance(x, ast.comprehension) for i in x.ifs]
+                if isinstance(a0, ast.Call) and call_name(a0) == 'filter':
+                    filt.append(norm(a0))
+                from sa.variance import path_literals
+                cond = [norm(e) for e, _p in path_literals(c, loops[0].stmt if loops else fi.node)
+                        if res in norm(e) or acc in norm(e)]
+                rep.check(not filt and not cond, R, 'run_tests: every entry of %s.%s is handed to %s' % (
+                    res, attr, acc), 'the transfer of %s.%s into %s is filtered (%s): result events that '
+                    'the filter rejects -- e.g. a second failure of the same test that compares equal -- '
+                    'are neither counted nor listed' % (res, attr, acc, filt + cond),
+                    key='channel-complete:%s<-%s' % (acc, attr), func=fi.qualname, where=ctx.where(fi, c))
     rep.floor(R, cnt, 3, 'result -> accumulator transfers')
+
+
+def r3_channels(ctx, rep, R='C02.R3'):
+    rep.rule(R, 'every bad-outcome channel reaches an accumulator the verdict reads: test '
+             'failures / unexpected successes -> failures, test errors -> errors (function '
+             'run_tests, every iteration); layer setUp/tearDown exceptions -> errors '
+             '(handle_layer_failure, not for NotImplementedError); import failures -> '
+             'StartUpFailure -> layer None -> Runner.import_errors; a missing layer in a child -> '
+             'Runner.errors')
+    m = ctx.model
+    result_transfers(ctx, rep, R)
     # layer failures
     from . import c04
     c04.r1_r2_escape(ctx, rep, R1=R, R2=R)
